@@ -2,6 +2,8 @@ package checks
 
 import (
 	"bytes"
+	"math/big"
+	"runtime"
 	"fmt"
 	"sort"
 	"strings"
@@ -30,7 +32,7 @@ func init() {
 	vk.Register(&vk.Check{
 		ID:    "C05",
 		Level: "fault_enumeration",
-		Rule: "L1 (boundary): for every protocol the honest transcript is recorded; every message a victim receives is replaced - at the moment it would be delivered (early: possibly queued for a later round) or when it is the last message the victim waits for (late) - by one hostile variant: every node of its CBOR tree x structural malformations (deleted, null, wrong major type, empty, 1/3/31/33-byte, 4 KiB, 1 MiB, length prefixes 0 / 0xFFFFFFFF, collections of 0 / n+-1 / 100000 elements, huge and negative integers, indefinite / over-declared / 60-deep encodings, unknown keys), header malformations (recipient, sender, round, broadcast flag, session tag, protocol, payload, echo hash) and seeded random bytes / bit flips; the session then runs to quiescence through the real handlers; L2 (CMP, throughput): the round object of a victim in the target state is fed thousands of hostile payloads through the handler's decode + verify/store path, hits are re-executed at L1; restoring wire messages and stored material from arbitrary bytes is fuzzed as well; oracles per Accept call: no panic / process death, CPU <= 60 s, allocation <= 1 GiB, no blocked call, and a legal post-state (never value and error; a terminal error implies a closed channel; a closed channel implies a terminal result); " +
+		Rule: "L1 (boundary): for every protocol the honest transcript is recorded; every message a victim receives is replaced - at the moment it would be delivered (early: possibly queued for a later round) or when it is the last message the victim waits for (late) - by one hostile variant: every node of its CBOR tree x structural malformations (deleted, null, wrong major type, empty, 1/3/31/33-byte, 4 KiB, 1 MiB, length prefixes 0 / 0xFFFFFFFF, collections of 0 / n+-1 / 100000 elements, huge and negative integers, indefinite / over-declared / 60-deep encodings, unknown keys), header malformations (recipient, sender, round, broadcast flag, session tag, protocol, payload, echo hash) and seeded random bytes / bit flips; the session then runs to quiescence through the real handlers; L2 (CMP, throughput): the round object of a victim in the target state is fed thousands of hostile payloads through the handler's decode + verify/store path, hits are re-executed at L1; restoring wire messages and stored material from arbitrary bytes is fuzzed as well, and every number / byte field of every stored type is replaced by oversized values (8 KiB and 64 KiB numbers that are 3 mod 4 without small factors, 64 KiB of 0xff, 1 MiB) with CPU and allocation measured per restore call; oracles per Accept call: no panic / process death, CPU <= 60 s, allocation <= 1 GiB, no blocked call, and a legal post-state (never value and error; a terminal error implies a closed channel; a closed channel implies a terminal result); " +
 			"distinct non-trivial = distinct (protocol, round, message kind, field path, malformation, timing) cases executed",
 		MinDistinct:  300,
 		Assumptions:  []string{"CPU and allocation are measured per call for the whole process (one case at a time per child); RLIMIT_AS 12 GiB turns allocation bombs into attributed process deaths", "the watchdog firing without a provable block or CPU overrun is inconclusive"},
@@ -277,6 +279,8 @@ func c05Cases(env vk.Env) []vk.Case {
 			cs = append(cs, vk.Case{ID: fmt.Sprintf("L2/%s/part%d", p, part), Run: func(t *vk.T) { c05L2(t, p, part, parts, env.Pick(500, 5000)) }})
 		}
 	}
+	cs = append(cs, vk.Case{ID: "restore-resource/cheap", Run: func(t *vk.T) { c05RestoreResource(t, false) }})
+	cs = append(cs, vk.Case{ID: "restore-resource/cmp", Run: func(t *vk.T) { c05RestoreResource(t, true) }})
 	for i := 0; i < env.Pick(2, 12); i++ {
 		i := i
 		cs = append(cs, vk.Case{ID: fmt.Sprintf("restore/%d", i), Run: func(t *vk.T) { c05Restore(t, i, env.Pick(1500, 20000)) }})
@@ -588,4 +592,138 @@ func c05Restore(t *vk.T, i, count int) {
 	if i == 0 {
 		t.Sample(map[string]any{"level": "restore", "decoders": names, "inputs": count})
 	}
+}
+
+// c05OversizedNumber builds a len-byte number that survives the cheap rejections of a primality-based validation:
+// p ≡ 3 (mod 4), and neither p nor (p-1)/2 has a prime factor below 1000 (so only an expensive test can refuse it).
+func c05OversizedNumber(r *vk.Rand, length int) []byte {
+	small := []int64{}
+	for q := int64(3); q < 1000; q += 2 {
+		pr := true
+		for d := int64(3); d*d <= q; d += 2 {
+			if q%d == 0 {
+				pr = false
+			}
+		}
+		if pr {
+			small = append(small, q)
+		}
+	}
+	b := r.Bytes(length)
+	b[0] |= 0xc0
+	b[len(b)-1] |= 3
+	p := new(big.Int).SetBytes(b)
+	four := big.NewInt(4)
+	for {
+		h := new(big.Int).Rsh(p, 1)
+		ok := true
+		for _, q := range small {
+			bq := big.NewInt(q)
+			if new(big.Int).Mod(p, bq).Sign() == 0 || new(big.Int).Mod(h, bq).Sign() == 0 {
+				ok = false
+				break
+			}
+		}
+		if ok {
+			return p.Bytes()
+		}
+		p.Add(p, four)
+	}
+}
+
+// c05RestoreResource restores stored objects in which one number / byte field is replaced by an oversized value and
+// measures the CPU time and the allocation of every restore call (bounded time and memory of "restoring stored key
+// material or wire messages from arbitrary bytes").
+func c05RestoreResource(t *vk.T, withCMP bool) {
+	r := t.Rng
+	w := c15Build(t, withCMP)
+	if w == nil {
+		return
+	}
+	names := []string{"frost.Config", "frost.TaprootConfig", "doerner.ConfigReceiver", "doerner.ConfigSender", "ecdsa.Signature", "protocol.Message"}
+	if withCMP {
+		names = []string{"cmp.Config/binary", "cmp.Config/cbor", "ecdsa.PreSignature"}
+	}
+	type probe struct {
+		name string
+		v    []byte
+	}
+	probes := []probe{
+		{"oversized-8KiB-3mod4-no-small-factor", c05OversizedNumber(r, 8<<10)},
+		{"oversized-64KiB-3mod4-no-small-factor", c05OversizedNumber(r, 64<<10)},
+		{"ff-64KiB", bytes.Repeat([]byte{0xff}, 64<<10)},
+		{"bytes-1MiB", bytes.Repeat([]byte{0x41}, 1<<20)},
+	}
+	for _, nm := range names {
+		c := codecs[nm]
+		obj := objOf(w, nm, r)
+		var data []byte
+		var err error
+		if p, _, _ := vk.Guard(func() { data, err = c.encode(obj) }); p || err != nil {
+			t.Inconclusive("encoding %s failed", nm)
+			continue
+		}
+		root, err := adv.Decode(data)
+		if err != nil {
+			t.Inconclusive("cannot parse the encoding of %s: %v", nm, err)
+			continue
+		}
+		for _, s := range adv.Sites(root, 3) {
+			if s.Kind != "bytes" {
+				continue
+			}
+			for _, pb := range probes {
+				b, err := adv.Encode(adv.With(root, s, pb.v, false))
+				if err != nil {
+					continue
+				}
+				t.Note("restore-resource|"+nm+"|"+s.Path+"|"+pb.name, "")
+				done := make(chan struct{})
+				var pnk bool
+				var fr, txt string
+				var ms0, ms1 runtime.MemStats
+				runtime.ReadMemStats(&ms0)
+				cpu0 := sim.CPUNanos()
+				go func() {
+					defer close(done)
+					pnk, fr, txt = vk.Guard(func() { _, _ = c.restore(b) })
+				}()
+				over := false
+			wait:
+				for {
+					select {
+					case <-done:
+						break wait
+					case <-time.After(50 * time.Millisecond):
+						if sim.CPUNanos()-cpu0 > c05CPUBudgetNs { // decided on CPU time consumed, not on the wall clock
+							over = true
+							break wait
+						}
+					}
+				}
+				cpu := sim.CPUNanos() - cpu0
+				t.Obs("evaluations", 1)
+				t.Obs("restores_with_oversized_field", 1)
+				t.Distinct("restore-resource|%s|%s|%s", nm, s.Path, pb.name)
+				t.ObsMax("cpu_ms_per_restore", cpu/1e6)
+				if over {
+					t.Violation("restore|"+nm+"|cpu-exhaustion|"+s.Path+"|"+pb.name, "restoring %s with %s = %s burnt %d CPU-s without returning", nm, s.Path, pb.name, cpu/1e9)
+					return // the abandoned call keeps burning CPU: nothing measured after it would be meaningful
+				}
+				runtime.ReadMemStats(&ms1)
+				alloc := ms1.TotalAlloc - ms0.TotalAlloc
+				t.ObsMax("alloc_MiB_per_restore", int64(alloc>>20))
+				if cpu > c05CPUBudgetNs {
+					t.Violation("restore|"+nm+"|cpu-exhaustion|"+s.Path+"|"+pb.name, "restoring %s with %s = %s used %d CPU-s", nm, s.Path, pb.name, cpu/1e9)
+				}
+				if alloc > c05AllocBudget {
+					t.Violation("restore|"+nm+"|memory-exhaustion|"+s.Path+"|"+pb.name, "restoring %s with %s = %s allocated %d MiB", nm, s.Path, pb.name, alloc>>20)
+				}
+				if pnk {
+					t.Violation("restore|"+nm+"|panic|"+fr, "restoring %s with %s = %s panicked in %s: %s", nm, s.Path, pb.name, fr, truncStr(txt, 160))
+				}
+			}
+		}
+	}
+	t.Sample(map[string]any{"level": "restore-resource", "types": names, "probes": []string{probes[0].name, probes[1].name, probes[2].name, probes[3].name}})
 }
